@@ -177,6 +177,8 @@ fn decide(st: &mut State, me: Option<usize>) {
 		0
 	};
 	let chosen = enabled[choice];
+	// the cost of leaving the current thread: free when it stands at an operation boundary
+	let cur_enabled = cur_enabled && !me.map(|m| st.threads[m].site.starts_with("boundary:")).unwrap_or(false);
 	st.trace.push(Point {
 		n_enabled: enabled.len().min(255) as u8,
 		chosen: choice as u8,
@@ -287,6 +289,9 @@ fn sched_hook_inner(ev: Event) {
 				return;
 			}
 			let mut is_yield = site.starts_with("yield:");
+			// "boundary:" = the thread stands between two operations of its script: it stays enabled, but switching away
+			// from it here is not a preemption (CHESS counts only switches forced in the middle of an operation)
+			let is_boundary = site.starts_with("boundary:");
 			if let Some((ysite, n)) = st.soft_yield {
 				if site == ysite {
 					if st.soft_thread == Some(me) {
@@ -301,7 +306,7 @@ fn sched_hook_inner(ev: Event) {
 					}
 				}
 			}
-			if !is_yield && !(st.filter)(site) {
+			if !is_yield && !is_boundary && !(st.filter)(site) {
 				return;
 			}
 			st.threads[me].status = TStatus::Parked;
